@@ -2,7 +2,7 @@
 use crate::common::*;
 use crate::domains::*;
 use crate::refsha;
-use crate::tree::{self, Builder, ENCS, SHARINGS, T, TreeSpace};
+use crate::tree::{self, Builder, ENCS4, SHARINGS, T, TreeSpace};
 use clvmr::allocator::Allocator;
 use clvmr::error::EvalErr;
 use clvmr::serde::{intern_tree, intern_tree_limited, node_to_bytes};
@@ -39,7 +39,7 @@ pub fn run(ctx: &Ctx) -> Report {
             A.with(|a| {
                 let a = &mut a.borrow_mut();
                 for sh in SHARINGS {
-                    for enc in ENCS {
+                    for enc in ENCS4 {
                         let cp = a.checkpoint();
                         let n = Builder::new(sh, enc).build(a, &t);
                         let canon = format!("tree {} sharing={sh:?} enc={enc:?}", hx(&ser));
@@ -112,6 +112,6 @@ pub fn run(ctx: &Ctx) -> Report {
     rep.states = rep.acc.get("cases");
     rep.transitions = rep.evaluations;
     rep.traces = rep.acc.get("cases");
-    rep.rule = format!("every tree of TREES({},A4), TREES({},A6) and TREES({}, boundary atoms incl. non-canonical and 2^26) in 3 sharing modes x 3 atom representations; oracle: same serialization, same tree hash (independent SHA-256), atoms pairwise byte-distinct and equal to the set of distinct atom values, pairs pairwise distinct as (left,right) and as sub-trees and equal to the set of distinct sub-trees, counts <= source; intern_tree_limited for every heap limit 0..=need+1. Non-trivial = cases where interning actually merged nodes.", ctx.pick(5, 6), ctx.pick(4, 5), ctx.pick(3, 4));
+    rep.rule = format!("every tree of TREES({},A4), TREES({},A6) and TREES({}, boundary atoms incl. non-canonical and 2^26) in 3 sharing modes x 4 atom representations (inline, heap, view, and mixed within one tree); oracle: same serialization, same tree hash (independent SHA-256), atoms pairwise byte-distinct and equal to the set of distinct atom values, pairs pairwise distinct as (left,right) and as sub-trees and equal to the set of distinct sub-trees, counts <= source; intern_tree_limited for every heap limit 0..=need+1. Non-trivial = cases where interning actually merged nodes.", ctx.pick(5, 6), ctx.pick(4, 5), ctx.pick(3, 4));
     rep
 }
